@@ -2,7 +2,7 @@
 import re
 
 import bv
-from interp import Agg, Enum, Int, Opaque, Ref, UNIT, bool_int
+from interp import Agg, Enum, Int, Opaque, Ref, SymEnum, UNIT, bool_int
 
 OK, ERR = 0, 1          # Result variants
 NONE, SOME = 0, 1       # Option variants
@@ -98,6 +98,8 @@ def m_discriminant_value(ip, st, fr, t, args):
         v = ip.read_loc(st, v.root, v.path)
     w = ip.int_info(t["dest"]["ty"])
     w = w[0] if w else 64
+    if isinstance(v, SymEnum):
+        return Int(bv.cast(v.bits, w, False))
     if isinstance(v, Enum):
         # type of the referenced enum
         at = ip.types[t["args"][0]["p"]["ty"]] if t["args"][0]["k"] in ("copy", "move") else None
@@ -153,6 +155,18 @@ def m_guard_deref(ip, st, fr, t, args):
             st.mem[root] = Int(bv.data_bv("setting_" + str(g.data).split("::")[-1], 1))
         return Ref(root, ())
     return Opaque("deref")
+
+
+def m_ord_minmax(ip, st, fr, t, args):
+    a, b = args[0], args[1]
+    if not (isinstance(a, Int) and isinstance(b, Int)):
+        return Opaque("minmax")
+    ii = ip.int_info(ip.operand_ty(t["args"][0]))
+    signed = ii[1] if ii else False
+    lt = bv.slt(a.bits, b.bits) if signed else bv.ult(a.bits, b.bits)
+    if t["callee"]["path"].endswith("::max"):
+        return Int(bv.ite(lt, b.bits, a.bits))
+    return Int(bv.ite(lt, a.bits, b.bits))
 
 
 def m_checked_add_signed(ip, st, fr, t, args):
@@ -291,6 +305,8 @@ def standard_models():
         "anyhow::Error::msg": m_anyhow,
         "anyhow::__private::must_use": m_identity0,
         "std::hint::must_use": m_identity0,
+        "std::cmp::Ord::max": m_ord_minmax,
+        "std::cmp::Ord::min": m_ord_minmax,
         "std::intrinsics::discriminant_value": m_discriminant_value,
         "core::intrinsics::discriminant_value": m_discriminant_value,
         "anyhow::error::<impl anyhow::Error>::msg": m_anyhow,
